@@ -135,6 +135,9 @@ def stage_scenarios():
         out.append({"steps": n_steps, "save_every": k, "save": True, "interrupt": None, "pause": False, "answer": None})
     for k in (1, 2, 3):
         out.append({"steps": 4, "save_every": k, "save": False, "interrupt": None, "pause": False, "answer": None})
+    # the same loop when the data handler keeps a tmp file for the monitor (an explicit output file): nothing the update is handed may differ
+    for k in (1, 2):
+        out.append({"steps": 3, "save_every": k, "save": True, "interrupt": None, "pause": False, "answer": None, "tmp_file": True})
     for k, where, j, (pause, answer) in itertools.product((1, 2, 3), ("update", "save"), (0, 1, 2), ((False, None), (True, "n"), (True, "y"), (True, ""))):
         out.append({"steps": 5, "save_every": k, "save": True, "interrupt": (where, j), "pause": pause, "answer": answer})
     for where, j in (("update", 1),):
@@ -165,7 +168,7 @@ def _machine(repo, sc, tr, counters, entry):
         if text.endswith("options.dt_init"):
             return DT
         if text.endswith("data_handler.tmp_file"):
-            return None
+            return Opaque("TMPFILE") if sc.get("tmp_file") else None
         if text.endswith(".monitor"):
             return False
         return NotImplemented
